@@ -91,7 +91,44 @@ ARR_PROGS = [
     ("simp", "foo/bar"),
     ("simp", "foo*s/bar"),
     ("simp", "kfoo/foo"),
+    # NumPy array functions whose result unit is computed by a handler (powers / products of the operands' units)
+    ("npf", "prod", "foo"),
+    ("npf", "var", "foo"),
+    ("npf", "std", "kfoo"),
+    ("npf", "det", "foo"),
+    ("npf", "inv", "foo"),
+    ("npf", "sq", "foo"),
+    ("npf", "dot", "foo", "bar"),
+    ("npf", "trapz", "foo", "kfoo"),
+    ("npf", "cross", "foo", "bar"),
+    ("npf", "prod", "foo/s"),
 ]
+# (numbers on SI magnitudes, exponent of each operand's unit) for the npf programs: the model's expectation
+NPF = {
+    "prod": (lambda a: np.prod(a), lambda: (2.0,), (2,)),
+    "var": (lambda a: np.var(a), lambda: (0.25,), (2,)),
+    "std": (lambda a: np.std(a), lambda: (0.5,), (1,)),
+    "det": (lambda a: np.linalg.det(np.array([[1.0, 2.0], [3.0, 4.0]]) * a.units), lambda: (-2.0,), (2,)),
+    "inv": (lambda a: np.linalg.inv(np.array([[1.0, 2.0], [3.0, 4.0]]) * a.units), lambda: (-2.0, 1.0, 1.5, -0.5), (-1,)),
+    "sq": (lambda a: a**2, lambda: (1.0, 4.0), (2,)),
+    "dot": (lambda a, b: np.dot(a, b), lambda: (11.0,), (1, 1)),
+    "trapz": (lambda a, b: np.trapezoid(a, b), lambda: (1.5,), (1, 1)),
+    "cross": (lambda a, b: np.cross(np.array([1.0, 2.0, 0.0]) * a.units, np.array([3.0, 4.0, 0.0]) * b.units), lambda: (0.0, 0.0, -2.0), (1, 1)),
+}
+
+
+def expected_npf(T, prog):
+    """the outcome the definitions in T imply for an npf program (independent of every cache in the library)"""
+    _k, name, *units = prog
+    vals, exps = NPF[name][1](), NPF[name][2]
+    rs = [resolve_ref(T, u) for u in units]
+    if any(r[0] != "ok" for r in rs):
+        return ("raise",)
+    sc, dim = 1.0, None
+    for r, e in zip(rs, exps):
+        sc *= r[1] ** e
+        dim = r[3] ** e if dim is None else dim * r[3] ** e
+    return ("ok", tuple(v * sc for v in vals), str(dim))
 
 
 POPULATED = (("add", "foo", 2.0, "length", True), ("add", "bar", 5.0, "length", False))
@@ -210,6 +247,9 @@ def run_prog(r, prog, rp=None):
             res = arr(r, prog[1]).in_base()
         elif k == "sqrt":
             res = np.sqrt(arr(r, prog[1]))
+        elif k == "npf":
+            res = NPF[prog[1]][0](*[arr(r, u, (1.0, 2.0) if i == 0 else (3.0, 4.0)) for i, u in enumerate(prog[2:])])
+            res = unyt.unyt_array(np.atleast_1d(np.asarray(res.d)).reshape(-1), res.units)
         elif k == "simp":
             u = Unit(prog[1], registry=r).simplify()
             c, u2 = u.as_coeff_unit()
@@ -446,6 +486,23 @@ class System:
                     f"|seeded={int(_seeded(hist, s))}|mode={mode}",
                     {"history": case["history"], "prefix": case["prefix"], "probe": s},
                     b,
+                    a,
+                )
+        for p, a in zip(ARR_PROGS, warm_arr):
+            if p[0] != "npf":
+                continue
+            want = expected_npf(w.T, p)
+            ctx.decided((hist, "npf", p))
+            if want[0] == "raise":
+                bad = a[0] != "raise"
+            else:
+                n = len(want[1])
+                bad = a[0] != "ok" or a[2] != want[2] or not _close_tuple(a[1][:n], want[1]) or (len(a[1]) == 2 * n and not _close_tuple(a[1][n:], want[1]))
+            if bad and not any(not same(resolve_real(w.r, x), resolve_ref(w.T, x)) for x in p[2:]):
+                ctx.violation(
+                    f"C12|array|prog=npf:{p[1]}|units={'+'.join(_pclass(x) for x in p[2:])}|edit={info['last_any']}|mode=differs-from-current-definitions",
+                    {"history": case["history"], "prefix": case["prefix"], "program": list(p)},
+                    want,
                     a,
                 )
         for p, a, b in zip(ARR_PROGS, warm_arr, cold_arr):
